@@ -136,6 +136,14 @@ Theorem C01_suffixed_check_is_stricter :
   forall b sfx r, 0 <= b -> 0 <= sfx -> 0 <= gL r -> passes b sfx r -> gL r < 2 ^ 18.
 Proof. exact passes_raw. Qed.
 
+(* the Global allocator's own width may grow over time (dc-locations joining) and must never shrink: with suffix 0, a later and
+   larger raw value at an equal or larger width is larger (so are all values of a later batch, whose first raw value is above
+   the earlier one). The code keeps the width when the last dc-location disappears (skel_gta_GenerateTSO_ok: the plain path
+   passes GetSuffixBits()); `width_must_not_shrink` is the counterexample the real code produced before that repair. *)
+Theorem C01_global_width_may_only_grow :
+  forall x y b1 b2, 0 <= b1 <= b2 -> 0 <= x < y -> differentiate x b1 0 < differentiate y b2 0.
+Proof. exact differentiate_mono_width. Qed.
+
 Example C01_suffixed_nonvacuous :
   (* width 2, suffix 1: raw 65535 passes (262141), raw 65536 does not (262145 >= 2^18) although 65536 < 2^18 *)
   let r1 := Rec 0 5000 65535 3 1 true (Granted 2) in
@@ -154,3 +162,4 @@ Print Assumptions C01_suffixed_values_ordered.
 Print Assumptions C01_suffixed_values_distinct_within_an_answer.
 Print Assumptions C01_suffixed_logical_fits.
 Print Assumptions C01_suffixed_check_is_stricter.
+Print Assumptions C01_global_width_may_only_grow.
